@@ -499,7 +499,8 @@ fn build_l2_input(case: &Case, i: usize) -> Option<(Vec<u8>, Option<Plan>)> {
     match case.fault {
         Fault::PloidySelected => {
             let who = *sel.get(i % sel.len().max(1))?;
-            cs2.recs[i].gts[who] = if i % 2 == 0 { "0".into() } else { "0/1/1".into() };
+            // non-diploid genotypes, with and without uncalled alleles among them
+            cs2.recs[i].gts[who] = ["0", "0/1/1", "0/./1", ".|.|.", "./././.", "1/./."][i % 6].into();
         }
         Fault::PloidyUnselected => {
             let who = *unsel.get(i % unsel.len().max(1))?;
